@@ -151,13 +151,15 @@ impl Culture for LunarFestival {
 
 impl LunarFestival {
   pub fn from_ymd(year: isize, month: isize, day: usize) -> Option<Self> {
+    // 同一天有多个节日时，取排在前面的那个
+    let mut found: Option<Self> = None;
     let mut reg: Regex = Regex::new(format!("{}{:0>two$}{:0>two$}", r"@\d{2}0", month, day, two = 2).as_str()).unwrap();
     if reg.is_match(LUNAR_FESTIVAL_DATA) {
       let data: &str = reg.find(LUNAR_FESTIVAL_DATA).unwrap().as_str();
       let day: LunarDay = LunarDay::from_ymd(year, month, day);
       let di: &str = &data[1..3];
       let index: usize = usize::from_str(di).unwrap();
-      return Some(Self {
+      found = Some(Self {
         festival_type: FestivalType::DAY,
         day,
         index,
@@ -172,6 +174,9 @@ impl LunarFestival {
       let solar_term: SolarTerm = SolarTerm::from_index(year, term_index as isize);
       let di: &str = &data[1..3];
       let index: usize = usize::from_str(di).unwrap();
+      if found.as_ref().map_or(false, |f| f.index < index) {
+        continue;
+      }
       let lunar_day: LunarDay = solar_term.get_julian_day().get_solar_day().get_lunar_day();
       if lunar_day.get_year() == year && lunar_day.get_month() == month && lunar_day.get_day() == day {
         return Some(Self {
@@ -181,6 +186,9 @@ impl LunarFestival {
           solar_term: Some(solar_term),
         });
       }
+    }
+    if found.is_some() {
+      return found;
     }
     reg = Regex::new(r"@\d{2}2").unwrap();
     if reg.is_match(LUNAR_FESTIVAL_DATA) {
